@@ -2,7 +2,10 @@ package crl
 
 import (
 	"github.com/gr33nbl00d/caddy-revocation-validator/config"
+	"github.com/gr33nbl00d/caddy-revocation-validator/crl/crlrepository"
+	"github.com/gr33nbl00d/caddy-revocation-validator/crl/crlstore"
 	"github.com/gr33nbl00d/caddy-revocation-validator/zz_verif/verifrt"
+	"go.uber.org/zap"
 )
 
 // VerifC20_Registry: work_dir registration behaves like a set over arbitrary directory strings, for
@@ -21,4 +24,54 @@ func VerifC20_Registry() {
 		}
 	}
 	verifrt.Reach("cycles")
+}
+
+// VerifC20_Lifecycle: provision / cleanup cycles through the REAL Provision and Cleanup, where the
+// configured CRL of a cycle is acceptable or not (bad signature, origin down) - so Provision succeeds
+// or fails half-way, after the work_dir was registered and databases were opened. After Cleanup of
+// either kind of instance the work_dir is free again and no database LOCK is held: cycles can repeat.
+func VerifC20_Lifecycle() {
+	crlrepository.VerifInstallWorld()
+	verifrt.InstallDirListing()
+	verifrt.Override("github.com/gr33nbl00d/caddy-revocation-validator/crl/crlrepository.NewCRLRepository", func(l *zap.Logger, cfg *config.CRLConfig, t crlstore.StoreType) (error, *crlrepository.Repository) {
+		return nil, crlrepository.VerifNewRepo(t == crlstore.LevelDB, cfg)
+	})
+	st := config.Memory
+	if verifrt.Choose(2) == 1 {
+		st = config.Disk
+	}
+	s1 := sym("s1")
+	cfg := &config.CRLConfig{WorkDir: "/work", StorageTypeParsed: st, CDPConfig: &config.CDPConfig{CRLFetchModeParsed: config.CRLFetchMode(verifrt.Choose(2))},
+		SignatureValidationModeParsed: config.SignatureValidationModeVerify, UpdateIntervalParsed: 1800e9, CRLUrls: []string{urlB}}
+	n := verifrt.Param("cycles", 2)
+	for cycle := 0; cycle < n; cycle++ {
+		kind := verifrt.Choose(3) // 0 acceptable, 1 bad signature, 2 origin down
+		pub := crlrepository.VerifNewCRL("B", "CN=I1", s1)
+		switch kind {
+		case 0:
+			crlrepository.VerifSetServer(urlB, true, pub)
+		case 1:
+			pub.SetSigOK(false)
+			crlrepository.VerifSetServer(urlB, true, pub)
+		case 2:
+			crlrepository.VerifSetServer(urlB, false, nil)
+		}
+		c := &CRLRevocationChecker{}
+		err := c.Provision(cfg, zap.NewNop())
+		verifrt.DropSpawned() // the ticker goroutine (channels are not encodable; its lifetime is outside the claim)
+		verifrt.Assert((err == nil) == (kind == 0), "provisioning succeeds exactly when the configured CRL is acceptable")
+		if err != nil {
+			verifrt.Reach("failed-provision")
+		}
+		verifrt.Assert(c.Cleanup() == nil, "cleanup succeeds")
+		verifrt.Assert(verifrt.LocksHeld() == 0, "no lock held after cleanup")
+		// released: the work_dir can be taken again and no database handle keeps its LOCK
+		verifrt.Assert(RegisterCRLWorkDirUsage(cfg) == nil, "the work_dir is free again after Cleanup (also after a failed Provision)")
+		DeregisterCRLWorkDirUsage(cfg)
+		for _, d := range verifrt.Disk {
+			verifrt.Assert(!d.Locked, "no database is left open after Cleanup")
+		}
+		verifrt.Assert(verifrt.TempResidue("/work") == 0, "no temporary artefact after the cycle")
+	}
+	verifrt.Reach("lifecycle")
 }
